@@ -151,7 +151,7 @@ Section VLS.
   Proof. intros a b H tr. destruct (H tr). split; congruence. Qed.
 
   Lemma target_same : forall oc t1 t2 tr, same_eval t1 t2 -> eval_target W oc tr t1 = eval_target W oc tr t2.
-  Proof. intros oc t1 t2 tr H. unfold eval_target. destruct (H tr). destruct (oc =? 2); assumption. Qed.
+  Proof. intros oc t1 t2 tr H. unfold eval_target. destruct (H tr). destruct (is_cont oc); assumption. Qed.
 
   Lemma vls_plain : forall x y, values_look_the_same x y = true -> plain_item x = true /\ plain_item (strip_enum y) = true.
   Proof.
